@@ -42,6 +42,21 @@ CLAIMED = {
  "C06": ("conversion monitor comparing the colour the reference gradient model assigns in the source with the colour of the converted document at retained interior points; output gradients checked for self-containment",
          "Each conversion of a generated gradient document (both units, percentages, transforms, spread methods, focal points, href chains, shared gradients under one transform) is judged at ~250 points within 6e-3. Held-on-observed.",
          "Trusts ref/gradient.py. Degenerate bounding boxes and focal points outside the circle are not generated.", "3/C06"),
+ "C01": ("conversion monitor: every normal return of the real topicosvg() (library and CLI subprocess) is validated by an independent grammar validator over a stdlib XML parse that keeps comments/PIs; differential rule for drop_unsupported; a stage recorder on remove_unpainted_shapes attributes the known late-pruning finding",
+         "Thousands of generated mixed documents x ndigits 0..6 x allow_text x drop_unsupported, the tests/ corpus under all option combinations and a CLI slice are validated clause by clause. Held-on-observed.",
+         "Trusts ref/picogrammar.py as the statement of the README grammar; exceptions other than under drop_unsupported belong to C17.", "3/C01"),
+ "C07": ("conversion monitor over recorded histories out1=convert(doc), out2=convert(out1), out3=convert(out2): byte equality and empty checkpicosvg; known mechanisms (late pruning, defs insertion order) recognised by predicates over the recorded pipeline stage and the diff",
+         "Generated mixed and cleanup-ordering documents and the tests/ corpus at ndigits 0,1,3,6 are converted three times. Held-on-observed.",
+         "Byte comparison of SVG.tostring(); first-pass exceptions are not judged.", "3/C07"),
+ "C08": ("conversion monitor: ids unique, every url(#) resolves to a gradient in defs, every gradient used - checked on each converted document from sharing-heavy generated sources; stage recorder attributes orphaned gradients to late pruning",
+         "Documents with shared ids, many instances, stroked id'd shapes, shared gradients and colliding generated names are converted and their reference graph checked. Held-on-observed.",
+         "Only sources whose references resolve are generated.", "3/C08"),
+ "C14": ("differential conversion monitor over pairs (D, N(D)) with generated noise insertion at arbitrary tree positions and noise removal on real files; outputs compared by a canonical form that abstracts gradient ids (by content), defs order and 3e-5 relative numeric slack; both-raise counts as equal",
+         "Each pair is converted by the real code and compared. Held-on-observed.",
+         "Trusts ref/xmlcanon.equivalent; numeric slack widened from 1.5e-6 to 3e-5 because rounding order (not noise handling) legitimately differs, amplified by bounding-box scales (Corrections log).", "3/C14"),
+ "C19": ("runtime monitors on SVG.clip_to_viewbox (rendering of input vs output by the reference evaluator: unchanged inside, empty outside, band around shape edges and the viewBox border) and on SVGShape/SVG.bounding_box (analytic extrema: containment and tightness on all four sides)",
+         "picosvg documents produced by converting generated sources with random viewBox origins/sizes are clipped and judged at ~270 points incl. border/corner-biased ones; boxes of thousands of curved shapes are judged. Held-on-observed.",
+         "Trusts ref/render.py and ref/pathgeom.tight_bbox; slack 3e-5*(1+|coord|) for Skia float32.", "3/C19"),
 }
 NOT_YET = "check not built yet in this session (build in progress; see DESIGN.md section 8 for the construction order)"
 
